@@ -1371,7 +1371,14 @@ fn emit_item(
                     Err(_) if opt => continue,
                     Err(e) => die(&e),
                 };
-                add(&mut edits, pos, pos, format!("\n{}\n", txt.trim_end()), "R5-at", Some(format!("{fname}.at:{ap}")));
+                // a proof block may declare that it *carries* a contract clause: its lemma preconditions describe the
+                // state the code must have produced, so a failure inside it is a failure of that clause
+                let carries = txt.lines().find_map(|l| l.trim().strip_prefix("// carries:").map(|x| x.trim().to_string()));
+                let tag = match carries {
+                    Some(c) => format!("{fname}.at:{ap}#carries:{c}"),
+                    None => format!("{fname}.at:{ap}"),
+                };
+                add(&mut edits, pos, pos, format!("\n{}\n", txt.trim_end()), "R5-at", Some(tag));
             }
         } else if !spec.loops.is_empty() || !spec.ats.is_empty() {
             die(&format!("{what}: loop/at on an item without body"));
